@@ -22,8 +22,9 @@ Definition op_of (c : sexp) : op * list tok :=
   else if head_is c "open" then (OOpen (get_N (arg c 0)) (get_N (arg c 1)), toks_of (arg c 2))
   else if head_is c "create" then
     (OCreate (get_N (arg c 0)) (get_bytes (arg c 1)) (get_N (arg c 2)), toks_of (arg c 3))
-  else if head_is c "read" then (ORead (get_N (arg c 0)), toks_of (arg c 1))
-  else if head_is c "write" then (OWrite (get_N (arg c 0)), toks_of (arg c 1))
+  (* (read fid buf TOKS), (write fid buf TOKS): buf = 0 nil, 1 empty, 2 sixty-four bytes *)
+  else if head_is c "read" then (ORead (get_N (arg c 0)) (if get_N (arg c 1) <? 2 then 0 else 64), toks_of (arg c 2))
+  else if head_is c "write" then (OWrite (get_N (arg c 0)), toks_of (arg c 2))
   else if head_is c "stat" then (OStat (get_N (arg c 0)), toks_of (arg c 1))
   else if head_is c "wstat" then (OWStat (get_N (arg c 0)), toks_of (arg c 1))
   else if head_is c "clunk" then (OClunk (get_N (arg c 0)), toks_of (arg c 1))
